@@ -24,6 +24,12 @@ RULE = ('random programs of facts and rules (2-5 predicates of arity 0-3 with 1-
         'goal or a repeated/nested head variable.')
 TRUSTED_BASE = []
 
+def source_ties():
+    """source-level tie of the compiler functions (notes/TIE.md): compile_expression, compile_unification, the reverse loop of
+    compile_arg_list_unification, compile_body / has_local_cut / localize_cuts"""
+    from lib import srctie
+    return srctie.check(ID)
+
 def gen(rng, tier):
     n = 220 if tier == 'quick' else 5000
     cases = []
